@@ -181,6 +181,7 @@ func main() {
 			for {
 				time.Sleep(10 * time.Second)
 				st := e.solver.Stats
+				fmt.Fprintln(os.Stderr, "[aborts]", abortReasons, e.inconclusive)
 				fmt.Fprintf(os.Stderr, "[progress] paths=%d aborted=%d merges=%d forks=%d queries=%d z3=%.1fs max=%.1fs terms=%d wall=%.0fs\n",
 					e.pathsDone, e.pathsPanic, e.merges, e.forks, st.Queries, st.WallZ3.Seconds(), st.MaxQuery.Seconds(), len(TF.all), time.Since(t0).Seconds())
 			}
